@@ -176,6 +176,24 @@ class Lexer:
         line = self.line
         col = self.column
 
+        def radix_digits(alphabet: str) -> str:
+            # Digits of a 0x / 0o / 0b literal, single separators between digits
+            out = ""
+            while True:
+                ch = self._current()
+                if ch and ch in alphabet:
+                    out += self._advance()
+                elif (
+                    ch == "_"
+                    and out
+                    and self.source[self.pos - 1] != "_"
+                    and self._peek()
+                    and self._peek() in alphabet
+                ):
+                    self._advance()
+                else:
+                    return out
+
         # Check for hex, octal, or binary
         if self._current() == "0":
             next_ch = self._peek()
@@ -183,9 +201,7 @@ class Lexer:
                 # Hexadecimal
                 self._advance()  # 0
                 self._advance()  # x
-                hex_str = ""
-                while self._current() and self._current() in "0123456789abcdefABCDEF":
-                    hex_str += self._advance()
+                hex_str = radix_digits("0123456789abcdefABCDEF")
                 if not hex_str:
                     raise JSSyntaxError("Invalid hex literal", line, col)
                 return _as_double(int(hex_str, 16))
@@ -193,9 +209,7 @@ class Lexer:
                 # Octal
                 self._advance()  # 0
                 self._advance()  # o
-                oct_str = ""
-                while self._current() and self._current() in "01234567":
-                    oct_str += self._advance()
+                oct_str = radix_digits("01234567")
                 if not oct_str:
                     raise JSSyntaxError("Invalid octal literal", line, col)
                 return _as_double(int(oct_str, 8))
@@ -203,9 +217,7 @@ class Lexer:
                 # Binary
                 self._advance()  # 0
                 self._advance()  # b
-                bin_str = ""
-                while self._current() and self._current() in "01":
-                    bin_str += self._advance()
+                bin_str = radix_digits("01")
                 if not bin_str:
                     raise JSSyntaxError("Invalid binary literal", line, col)
                 return _as_double(int(bin_str, 2))
